@@ -375,13 +375,22 @@ def unstrip(res, strip):
 LOCAL_FLAVOURS = ("d1", "d2", "l1", "l2")
 
 
+def passes(measure, arg):
+    try:
+        measure(arg)
+    except Exception:  # noqa: BLE001
+        return False
+    return True
+
+
 def with_diagnosis(measure, o, flavour, net, sizes):
     """measure(opts) -> outcome, raising Violation when an oracle clause fails.
 
-    When it fails, two re-runs decide whether the failure belongs to a narrow, already understood class:
+    When it fails, re-runs decide whether the failure belongs to a narrow, already understood class:
       damped-local-stuck : damping>0 with local_convergence=True fails, the same run with local_convergence=False is exact
-      damped-half-cancel : damping==0.5 on real signed data with a size-1 bond gives nan/garbage (one-norm flavours),
-                           damping=0.45 is exact
+      diis-local-stuck   : diis=True with local_convergence=True fails, local_convergence=False is exact (and, when the
+                           run is also damped, diis=False is exact too)
+      damped-half-cancel : damping==0.5 on real signed data gives nan/garbage (one-norm flavours), damping=0.45 is exact
     anything else is re-raised unchanged."""
     try:
         return measure(o)
@@ -389,20 +398,13 @@ def with_diagnosis(measure, o, flavour, net, sizes):
         raise
     except Exception as exc:  # noqa: BLE001 - re-raised below unless classified
         clause = exc.reason if isinstance(exc, Violation) else "crash:" + type(exc).__name__
-        if o["local"] and o["damping"] > 0 and flavour in LOCAL_FLAVOURS:
-            try:
-                measure(dict(o, local=False))
-            except Exception:  # noqa: BLE001
-                pass
-            else:
+        if o["local"] and flavour in LOCAL_FLAVOURS and (o["damping"] > 0 or o["diis"]):
+            if passes(measure, dict(o, local=False)):
+                if o["diis"] and (o["damping"] == 0 or passes(measure, dict(o, diis=False))):
+                    raise Violation("diis-local-stuck", flavour=flavour, clause=clause) from None
                 raise Violation("damped-local-stuck", flavour=flavour, clause=clause) from None
-        if (o["damping"] == 0.5 and net["kind"] == "signed" and flavour in ("d1", "hd1", "hv1", "l1")
-                and any(sizes[l] == 1 for l in sizes if l.startswith("e"))):
-            try:
-                measure(dict(o, damping=0.45))
-            except Exception:  # noqa: BLE001
-                pass
-            else:
+        if o["damping"] == 0.5 and net["kind"] == "signed" and flavour in ("d1", "hd1", "hv1", "l1"):
+            if passes(measure, dict(o, damping=0.45)):
                 raise Violation("damped-half-cancel", flavour=flavour, clause=clause) from None
         raise
 
@@ -784,20 +786,15 @@ def run_schedule(case):
         raise
     except Exception as exc:  # noqa: BLE001
         clause = exc.reason if isinstance(exc, Violation) else "crash:" + type(exc).__name__
-        if flavour in LOCAL_FLAVOURS and any(o["local"] and o["damping"] > 0 for o in (a, b)):
-            try:
-                measure({"a": dict(a, local=False), "b": dict(b, local=False)})
-            except Exception:  # noqa: BLE001
-                pass
-            else:
+        risky = [o for o in (a, b) if o["local"] and (o["damping"] > 0 or o["diis"])]
+        if flavour in LOCAL_FLAVOURS and risky:
+            if passes(measure, {"a": dict(a, local=False), "b": dict(b, local=False)}):
+                if any(o["diis"] for o in risky) and (
+                        all(o["damping"] == 0 for o in risky) or passes(measure, {"a": dict(a, diis=False), "b": dict(b, diis=False)})):
+                    raise Violation("diis-local-stuck", flavour=flavour, clause=clause) from None
                 raise Violation("damped-local-stuck", flavour=flavour, clause=clause) from None
-        if (flavour in ("d1", "hd1", "hv1", "l1") and net["kind"] == "signed" and any(o["damping"] == 0.5 for o in (a, b))
-                and any(sizes[l] == 1 for l in sizes if l.startswith("e"))):
-            try:
-                measure({"a": dict(a, damping=min(a["damping"], 0.45)), "b": dict(b, damping=min(b["damping"], 0.45))})
-            except Exception:  # noqa: BLE001
-                pass
-            else:
+        if flavour in ("d1", "hd1", "hv1", "l1") and net["kind"] == "signed" and any(o["damping"] == 0.5 for o in (a, b)):
+            if passes(measure, {"a": dict(a, damping=min(a["damping"], 0.45)), "b": dict(b, damping=min(b["damping"], 0.45))}):
                 raise Violation("damped-half-cancel", flavour=flavour, clause=clause) from None
         raise
     differ = [k for k in ("damping", "update", "local", "diis", "init", "normalize", "distance") if a[k] != b[k]]
